@@ -166,6 +166,45 @@ fn run(ctx: &mut Ctx) {
                 }
             }
         }
+        // a legal variant: the last two chunks merged into one final chunk that is longer than the others, and a
+        // final chunk that takes a few bytes more than its share; every order of those must equal the direct decode too
+        if nn >= 3 {
+            for variant in 0..2 {
+                let mut r2: Vec<enc::Chunk> = raw.clone();
+                if variant == 0 {
+                    let last = r2.pop().unwrap();
+                    let k = r2.len() - 1;
+                    r2[k].payload.extend(last.payload);
+                    r2[k].flags = 1;
+                } else if payload.len() > 3 * cs && cs >= 2 {
+                    // re-split with a smaller regular size so that the tail is longer than a regular chunk
+                    let reg = cs - 1;
+                    let full = payload.len() / reg - 1;
+                    if full < 2 || full > 400 {
+                        continue;
+                    }
+                    r2 = (0..full).map(|k| enc::Chunk { device_id: dev, packet_sequence: k as u32, channel_sequence: k as u16, channel_id: chip as u8, flags: 0, chunk_id: k as u16, payload: payload[k * reg..(k + 1) * reg].to_vec() }).collect();
+                    r2.push(enc::Chunk { device_id: dev, packet_sequence: 0, channel_sequence: 0, channel_id: chip as u8, flags: 1, chunk_id: full as u16, payload: payload[full * reg..].to_vec() });
+                } else {
+                    continue;
+                }
+                let l2: Vec<Chunk> = r2.iter().map(dec).collect();
+                for ord in [0usize, 1, 2] {
+                    let mut l = l2.clone();
+                    match ord {
+                        1 => l.reverse(),
+                        2 => rng.shuffle(&mut l),
+                        _ => {}
+                    }
+                    let Some(o) = reassemble(ctx, &l) else { return };
+                    if o != direct {
+                        ctx.violation("reassembly outcome differs from direct decode of the concatenation", format!("final chunk longer than the others ({} chunks): got {:?}", l.len(), o.as_ref().map(|s| s.len()).map_err(|e| e.clone())), json!({"chunks_in_arrival_order": describe(&l)}));
+                        return;
+                    }
+                    ctx.count("lists whose final chunk is longer than the others reassembled identically");
+                }
+            }
+        }
         if direct.is_ok() {
             ctx.count("chunk lists reassembled successfully in every order");
         } else {
